@@ -17,8 +17,8 @@ Missing / Spurious / Duplicate / SorterOrder / Raised (prefix Pairs_ unversioned
 
 Updates    : RepoListing_MC model-checks the listing caches (categories / packages / versions) under
               notify_add_package / notify_remove_package; seeded histories of such updates interleaved with queries
-              run on mutable SimpleTrees (after an initial full scan) and are judged by the stateful trace spec
-              (contents at query time).  Names listed without versions hold no package.  One engine is an on-disk
+              run on mutable SimpleTrees with cold, partly and fully filled listing caches and are judged by the
+              stateful trace spec (contents at query time; an update that raises is clause Update_Raised).  Names listed without versions hold no package.  One engine is an on-disk
               ebuild repository whose package directories also hold file names that are not valid versions.
 Carve-outs: versioned=False is exercised with a package class for the unversioned objects (raw_pkg_cls), as
 ebuild repositories do; with the default (bare (cat, pkg) tuples) attribute restrictions cannot match at all —
@@ -382,10 +382,9 @@ def dynamic_history(b, env, r_, steps):
     """updates through the repository's own notification API interleaved with queries"""
     uni = b.uni
     absent = set(uni.absent0)
-    present = set(range(1, len(uni.members) + 1)) - absent
-    b.scan()
-    for _ in range(steps):
-        x = r_.random()
+    present = {k for k in range(1, len(uni.members) + 1) if uni.members[k - 1][0]["r"] <= len(uni.repos)} - absent
+    for n in range(steps):
+        x = r_.random() * (0.45 if n < 8 else 1.0)  # the first steps are mostly updates: listings still cold
         if x < 0.18 and absent:
             k = r_.choice(sorted(absent))
             b.update("add", k)
@@ -427,25 +426,30 @@ class Batch:
             self.ck.nontriv((shape(t), q["engine"], q["mode"], q["unversioned"], tuple(q["stack"]), repr(self.uni.repos), len(self.steps) if self.dynamic else 0))
 
     def update(self, op, k):
-        self.uni.update(op, k)
+        raised, exc = False, ""
+        try:
+            self.uni.update(op, k)
+        except Exception as e:  # an observation, judged by the trace spec (Update_Raised)
+            raised, exc = True, f"{type(e).__name__}: {e}"
         self.steps.append(dict(step=op, k=k))
-        self.events.append(dict(tid=len(self.events), i=0, ev=op, k=k))
-        self.meta.append(dict(q=None, exc="", origin="update", nsteps=len(self.steps) - 1))
-
-    def scan(self):
-        """full scan: what every consumer does first (fills the listing caches)"""
-        for tree in self.uni.trees[: len(self.uni.repos)]:
-            list(tree)
+        self.events.append(dict(tid=len(self.events), i=0, ev=op, k=k, raised=raised))
+        self.meta.append(dict(q=None, exc=exc, origin="update", nsteps=len(self.steps) - 1, op=op, k=k))
 
     def judge(self):
-        if not self.events:
-            return
+        judge_many(self.ck, [self], self.label)
+
+    def report(self, verdicts):
         ck = self.ck
-        verdicts = ck.trace("RepoQuery_Trace", [self.uni.header()] + self.events, label=self.label, timeout=ck.pick(300, 1500), heap="3g")
         for v in verdicts:
             e, m = self.events[v["tid"]], self.meta[v["tid"]]
             if v["clause"] in ("OutsideDomain", "UnknownEvent"):
                 raise tlc.MachineryError(f"generator left the property's domain: {e}")
+            if e["ev"] != "query":
+                rec, obj = self.uni.members[e["k"] - 1]
+                ck.violation(v["clause"], dict(update=dict(op=m["op"], k=m["k"]), member=f"r{rec['r']}:{obj.cpvstr}", exc=m["exc"], origin=m["origin"],
+                                               engine="update", shape="", kinds=[], leaves={}, repos=self.uni.repos, future=self.uni.future,
+                                               ebuild=self.uni.ebuild, history=self.steps[: m["nsteps"]]))
+                continue
             names = [self._name(k, e["unversioned"]) for k in e["got"]]
             ck.violation(v["clause"], dict(
                 tree=e["t"], shape=shape(e["t"]), root=e["t"]["k"], query=m["q"], engine=m["q"]["engine"], exc=m["exc"], origin=m["origin"],
@@ -457,6 +461,23 @@ class Batch:
     def _name(self, k, unversioned):
         rec, obj = (self.uni.pairs if unversioned else self.uni.members)[k - 1]
         return f"r{rec['r']}:{obj.cpvstr}"
+
+
+def judge_many(ck, batches, label):
+    """several universes in one TLC run: header, events, header, events, ... (tids made unique by an offset)"""
+    batches = [b for b in batches if b.events]
+    if not batches:
+        return
+    trace, owner, off = [], [], 0
+    for b in batches:
+        trace.append(b.uni.header())
+        for e in b.events:
+            trace.append(dict(e, tid=e["tid"] + off))
+        owner.append((off, off + len(b.events), b))
+        off += len(b.events)
+    verdicts = ck.trace("RepoQuery_Trace", trace, label=label, timeout=ck.pick(300, 1500), heap="3g")
+    for lo, hi, b in owner:
+        b.report([dict(v, tid=v["tid"] - lo) for v in verdicts if lo <= v["tid"] < hi])
 
 
 def _ids(t, acc):
@@ -481,17 +502,18 @@ def run(ck):
     if ck.replay_case:
         d = ck.replay_case["detail"]
         b = Batch(ck, env, d["repos"], "Trace:replay", d.get("future", ()), d.get("ebuild"), dynamic=bool(d.get("history")))
-        if d.get("history"):
-            b.scan()
         for st in d.get("history", []):
             if st["step"] == "query":
                 b.run(st["tree"], st["query"], "history")
             else:
                 b.update(st["step"], st["k"])
-        b.run(d["tree"], d["query"], d.get("origin", "replay"))
+        if d.get("update"):
+            b.update(d["update"]["op"], d["update"]["k"])
+        else:
+            b.run(d["tree"], d["query"], d.get("origin", "replay"))
         b.judge()
         ck.nontriv("replay2")
-        ck.sample(dict(shape=d["shape"], query=d["query"]))
+        ck.sample(dict(shape=d.get("shape"), query=d.get("query"), update=d.get("update")))
         return
     # 1. design
     inv = ["InvPruneSound", "InvStackUnion", "InvPairs"]
@@ -499,14 +521,19 @@ def run(ck):
         ck.mc("RepoQuery_MC", cfg_text=mc_cfg(3, 2, '"basic"', inv), workers=4, timeout=300, label="MC:RepoQuery_MC 3 leaves depth2 basic")
     else:
         ck.mc("RepoQuery_MC", cfg_text=mc_cfg(4, 2, '"mid"', inv), workers=4, timeout=840, label="MC:RepoQuery_MC 4 leaves depth2 mid")
-    lcfg = ('SPECIFICATION Spec\nCONSTANTS\n Cats = {"a", "b"}\n Names = {"x", "y"}\n Vers = {1, 2}\n InvalidateOnlyNewCategory = %s\n'
-            "INVARIANT Coherent\nINVARIANT Complete\n")
-    ck.mc("RepoListing_MC", cfg_text=lcfg % "FALSE", workers=4, timeout=300, label="MC:RepoListing_MC listing caches under add/remove")
+    lcfg = ('SPECIFICATION Spec\nCONSTANTS\n Cats = ' + ck.pick('{"a"}', '{"a", "b"}') + '\n Names = {"x", "y"}\n Vers = {1, 2}\n InvalidateOnlyNewCategory = %s\n'
+            ' RemoveOrder = "%s"\nINVARIANT Coherent\nINVARIANT Complete\nINVARIANT NoRaise\n')
+    ck.mc("RepoListing_MC", cfg_text=lcfg % ("FALSE", "notify_first"), workers=4, timeout=300,
+          label="MC:RepoListing_MC listing caches under add/remove, any subset cached")
     if not ck.quick:
-        lneg = ck.mc("RepoListing_MC", cfg_text=lcfg % "TRUE", workers=2, timeout=300, expect_ok=False,
+        lneg = ck.mc("RepoListing_MC", cfg_text=lcfg % ("TRUE", "notify_first"), workers=2, timeout=300, expect_ok=False,
                      label="MC:RepoListing_MC negative control (invalidate only for a new category)")
         if lneg.violated not in ("Coherent", "Complete"):
             raise tlc.MachineryError("negative control: partial invalidation was not found incoherent by the model")
+        lneg = ck.mc("RepoListing_MC", cfg_text=lcfg % ("FALSE", "mutate_first"), workers=2, timeout=300, expect_ok=False,
+                     label="MC:RepoListing_MC negative control (backend store mutated before the notification reads the listings)")
+        if lneg.violated != "NoRaise":
+            raise tlc.MachineryError("negative control: mutate-first removal was not found to raise by the model")
     neg = ck.mc("RepoQuery_MC", cfg_text=mc_cfg(3, 1, '"basic"', ["InvShippedSound"]), workers=2, timeout=300, expect_ok=False,
                 label="MC:RepoQuery_MC negative control (snapshot collector)")
     if neg.violated != "InvShippedSound":
@@ -541,8 +568,13 @@ def run(ck):
             ck.sample(dict(direction="code->spec", repos=b.uni.repos, event=b.events[-1]))
         b.judge()
     # 4. repositories updated through notify_add_package / notify_remove_package between queries
-    for u in range(ck.pick(3, 30)):
+    dyn = []
+    for u in range(ck.pick(40, 400)):
         repos = random_repos(r_)
         b = Batch(ck, env, repos, f"Trace:updated-universe-{u}", future=random_future(repos, r_), dynamic=True)
-        dynamic_history(b, env, r_, ck.pick(80, 120))
-        b.judge()
+        dynamic_history(b, env, r_, r_.randint(10, 40))
+        dyn.append(b)
+        if len(dyn) == 100:
+            judge_many(ck, dyn, f"Trace:updated-universes@{u}")
+            dyn = []
+    judge_many(ck, dyn, "Trace:updated-universes")
